@@ -136,17 +136,17 @@ Proof.
   destruct p as [c e]. unfold dis_neg, dcmp, rescale_pair, rescale. cbn [coef dexp].
   intros Hn. apply Z.ltb_ge in Hn.
   destruct (Z.min_spec e 0) as [[He ->]|[He ->]]; zb; cbn [coef dexp]; try lia.
-  - split; [lia|]. split; [apply Z.compare_lt_iff | intros H; exact H].
   - assert (Hp : 0 < pow10 (0 - e)) by (apply pow10_pos; lia).
     rewrite Z.quot_div_nonneg by lia.
     split; [apply Z.div_pos; lia|].
-    split; intros H.
-    + apply Z.compare_lt_iff in H. apply Z.div_lt_upper_bound; lia.
+    split; intros Hcmp.
+    + change (c < len * pow10 (0 - e)) in Hcmp. apply Z.div_lt_upper_bound; lia.
     + apply Z.div_le_upper_bound; [lia|].
-      change (c <= len * pow10 (0 - e)) in H. lia.
+      change (c <= len * pow10 (0 - e)) in Hcmp. lia.
+  - split; [lia|]. split; [apply Z.compare_lt_iff | intros Hcmp; exact Hcmp].
   - assert (Hp : 0 < pow10 (e - 0)) by (apply pow10_pos; lia).
     split; [apply Z.mul_nonneg_nonneg; lia|].
-    split; [apply Z.compare_lt_iff | intros H; exact H].
+    split; [apply Z.compare_lt_iff | intros Hcmp; exact Hcmp].
 Qed.
 
 Arguments int_part : simpl never.
@@ -236,3 +236,216 @@ Proof.
   - destruct (Z.leb_spec (Z.of_nat (length s)) i); [exact I|]. apply go_slice_np; lia.
   - destruct (Z.leb_spec (Z.of_nat (length s)) i); [exact I|]. apply go_slice_np; lia.
 Qed.
+
+(** * The remaining function families *)
+Lemma func_decimal_slice_np a ps val : np (func_decimal_slice a ps val).
+Proof.
+  unfold func_decimal_slice. cbv zeta.
+  match goal with |- np (match ?x with _ => _ end) => destruct x as [[|d [|d' rest]]|] end; exact I.
+Qed.
+
+Lemma func_decimal_np op ps val : np (func_decimal op ps val).
+Proof. unfold func_decimal. np_crush; apply params_first_number_np. Qed.
+
+Lemma func_any_of_np ps val : np (func_any_of ps val).
+Proof. exact I. Qed.
+
+Lemma func_replace_all_np ps val : np (func_replace_all ps val).
+Proof. unfold func_replace_all. np_crush. Qed.
+
+Lemma func_is_null_np ps val : np (func_is_null ps val).
+Proof. unfold func_is_null. np_crush. Qed.
+Lemma func_is_empty_np ps val : np (func_is_empty ps val).
+Proof. unfold func_is_empty. np_crush. Qed.
+Lemma func_is_null_or_empty_np ps val : np (func_is_null_or_empty ps val).
+Proof. unfold func_is_null_or_empty. np_crush. Qed.
+
+Lemma func_not_np val : np (func_not val).
+Proof. unfold func_not. np_crush. Qed.
+Lemma func_invert_np val : np (func_invert val).
+Proof. unfold func_invert. np_crush. Qed.
+
+Lemma func_does_match_regex_np eng ps val : np (func_does_match_regex eng ps val).
+Proof. unfold func_does_match_regex. np_crush; apply params_first_string_np. Qed.
+
+Lemma func_replace_regex_np eng ps val : np (func_replace_regex eng ps val).
+Proof. unfold func_replace_regex. cbv zeta. np_crush. Qed.
+
+Lemma func_as_json_np eng ps val : np (func_as_json eng ps val).
+Proof. unfold func_as_json. np_crush. Qed.
+
+Lemma string_to_object_np eng fmt ps val : np (string_to_object eng fmt ps val).
+Proof. unfold string_to_object. cbv zeta. np_crush. Qed.
+
+Lemma func_sprintf_np eng ps val : np (func_sprintf eng ps val).
+Proof. unfold func_sprintf. np_crush. Qed.
+
+Lemma remove_keys_np keep val : np (remove_keys keep val).
+Proof.
+  unfold remove_keys. cbv zeta.
+  destruct (rv_v (deref1 (value_of val))); try exact I.
+  match goal with |- np (match ?x with _ => _ end) => destruct x end; exact I.
+Qed.
+
+Lemma func_remove_keys_by_np eng how ps val : np (func_remove_keys_by eng how ps val).
+Proof.
+  unfold func_remove_keys_by.
+  destruct (negb (len_is ps 1)); [exact I|].
+  apply np_bind; [apply params_first_string_np|]. intros p _.
+  destruct (String.eqb how "Regex").
+  - destruct (eng_re_match eng p []) as [[b|]|]; try exact I. apply remove_keys_np.
+  - destruct (String.eqb how "Prefix"); apply remove_keys_np.
+Qed.
+
+(** * run_func *)
+Definition is_strpart (ft : string) : bool :=
+  String.eqb ft "TrimRight" || String.eqb ft "TrimLeft" || String.eqb ft "Right" || String.eqb ft "Left".
+
+(** The side condition of a call [run_func eng ft ps val]: it constrains the
+    receiver [val] of the five IntPart-indexing functions and nothing else. *)
+Definition recv_ok (ft : string) (val : gv) : bool :=
+  if String.eqb ft "Index" then small_seq val
+  else if is_strpart ft then small_str val
+  else true.
+
+Lemma recv_ok_index ft val :
+  String.eqb ft "Index" = true -> recv_ok ft val = true -> small_seq val = true.
+Proof. intros E H. unfold recv_ok in H. rewrite E in H. exact H. Qed.
+
+Lemma recv_ok_trim_right ft val :
+  String.eqb ft "TrimRight" = true -> recv_ok ft val = true -> small_str val = true.
+Proof. intros E H. apply String.eqb_eq in E. subst ft. exact H. Qed.
+Lemma recv_ok_trim_left ft val :
+  String.eqb ft "TrimLeft" = true -> recv_ok ft val = true -> small_str val = true.
+Proof. intros E H. apply String.eqb_eq in E. subst ft. exact H. Qed.
+Lemma recv_ok_right ft val :
+  String.eqb ft "Right" = true -> recv_ok ft val = true -> small_str val = true.
+Proof. intros E H. apply String.eqb_eq in E. subst ft. exact H. Qed.
+Lemma recv_ok_left ft val :
+  String.eqb ft "Left" = true -> recv_ok ft val = true -> small_str val = true.
+Proof. intros E H. apply String.eqb_eq in E. subst ft. exact H. Qed.
+
+Create HintDb nopanic.
+#[export] Hint Resolve boolv_np negate_np func_equal_np decimal_bool_func_np string_bool_func_np
+  func_count_np func_any_np func_first_np func_last_np func_decimal_slice_np func_decimal_np
+  func_any_of_np func_replace_all_np func_is_null_np func_is_empty_np func_is_null_or_empty_np
+  func_not_np func_invert_np func_does_match_regex_np func_replace_regex_np func_as_json_np
+  string_to_object_np func_sprintf_np func_remove_keys_by_np
+  func_index_np string_part_func_np
+  recv_ok_index recv_ok_trim_right recv_ok_trim_left recv_ok_right recv_ok_left : nopanic.
+
+Lemma run_func_np eng ft ps val : recv_ok ft val = true -> np (run_func eng ft ps val).
+Proof.
+  intros H. unfold run_func.
+  repeat match goal with
+  | |- np (if String.eqb ft ?s then _ else _) =>
+    destruct (String.eqb ft s) eqn:?E; [ first [ exact I | solve [eauto 3 with nopanic] ] | ]
+  end.
+  exact I.
+Qed.
+
+Theorem run_func_never_panics : forall eng ft ps val m,
+  recv_ok ft val = true -> run_func eng ft ps val <> Panic m.
+Proof. intros eng ft ps val m H. apply np_neq. apply run_func_np. exact H. Qed.
+
+(** unconditional for every function but Index, Left, Right, TrimLeft, TrimRight *)
+Definition indexing_func (ft : string) : bool := String.eqb ft "Index" || is_strpart ft.
+
+Lemma recv_ok_other ft val : indexing_func ft = false -> recv_ok ft val = true.
+Proof.
+  unfold indexing_func, recv_ok. intros H. apply orb_false_elim in H. destruct H as [H1 H2].
+  rewrite H1, H2. reflexivity.
+Qed.
+
+Theorem run_func_never_panics_other : forall eng ft ps val m,
+  indexing_func ft = false -> run_func eng ft ps val <> Panic m.
+Proof. intros eng ft ps val m H. apply run_func_never_panics. apply recv_ok_other. exact H. Qed.
+
+(** * The side condition cannot be dropped
+    On a slice of 2^63+1 elements, Index(2^63) passes the range check of
+    func_index, IntPart wraps to -2^63, and reflect panics.  Such a list exists
+    in Coq (not in Go), so [run_func] does panic in the model. *)
+Lemma func_index_huge xs :
+  Z.of_nat (length xs) = 2 ^ 63 + 1 ->
+  func_index [RNum (mkDec (2 ^ 63) 0)] (VSlice EAny false xs)
+  = Panic "reflect: slice index out of range".
+Proof.
+  intros H. unfold func_index.
+  change (params_first_number [RNum (mkDec (2 ^ 63) 0)]) with (@Ok dec (mkDec (2 ^ 63) 0)).
+  cbn [bind].
+  replace (empty_guard (value_of (VSlice EAny false xs))) with false
+    by (symmetry; unfold empty_guard; apply andb_false_r).
+  change (elems_of (rv_v (deref1 (value_of (VSlice EAny false xs))))) with (Some (EAny, xs)).
+  cbv iota beta. rewrite H.
+  vm_compute. reflexivity.
+Qed.
+
+Theorem unguarded_statement_is_false :
+  ~ (forall eng ft ps val m, run_func eng ft ps val <> Panic m).
+Proof.
+  intros Hall.
+  set (N := Z.to_nat (2 ^ 63 + 1)).
+  assert (HN : Z.of_nat N = 2 ^ 63 + 1) by (apply Z2Nat.id; vm_compute; discriminate).
+  clearbody N.
+  apply (Hall no_engines "Index"%string [RNum (mkDec (2 ^ 63) 0)]
+              (VSlice EAny false (repeat VNil N)) "reflect: slice index out of range"%string).
+  change (func_index [RNum (mkDec (2 ^ 63) 0)] (VSlice EAny false (repeat VNil N))
+          = Panic "reflect: slice index out of range").
+  apply func_index_huge. rewrite repeat_length. exact HN.
+Qed.
+
+(** * The parser never constructs Panic *)
+Definition parse_np_at (k : nat) : Prop :=
+  (forall isf me cur rest, np (parse_path k isf me cur rest)) /\
+  (forall root isf me ops us cur rest, np (path_loop k root isf me ops us cur rest)) /\
+  (forall cur rest, np (parse_func k cur rest)) /\
+  (forall inv ft ps us cur rest, np (func_loop k inv ft ps us cur rest)) /\
+  (forall isf cur rest, np (parse_log k isf cur rest)) /\
+  (forall inv isf ty xs us cur rest, np (log_loop k inv isf ty xs us cur rest)).
+
+Ltac p_step IH1 IH2 IH3 IH4 IH5 IH6 :=
+  let rec_call := first [ apply IH1 | apply IH2 | apply IH3 | apply IH4 | apply IH5 | apply IH6 ] in
+  first
+  [ exact I
+  | rec_call
+  | match goal with |- np (bind _ _) => apply np_bind; [ rec_call | intros [[? ?] ?] _ ] end
+  | match goal with |- np (match ?x with _ => _ end) => destruct x end ].
+
+Lemma parse_np : forall k, parse_np_at k.
+Proof.
+  induction k as [|k IH].
+  - repeat split; intros; exact I.
+  - destruct IH as (IH1 & IH2 & IH3 & IH4 & IH5 & IH6).
+    repeat split; intros.
+    + cbn [parse_path]. repeat p_step IH1 IH2 IH3 IH4 IH5 IH6.
+    + cbn [path_loop]. repeat p_step IH1 IH2 IH3 IH4 IH5 IH6.
+    + cbn [parse_func]. repeat p_step IH1 IH2 IH3 IH4 IH5 IH6.
+    + cbn [func_loop]. repeat p_step IH1 IH2 IH3 IH4 IH5 IH6.
+    + cbn [parse_log]. repeat p_step IH1 IH2 IH3 IH4 IH5 IH6.
+    + cbn [log_loop]. repeat p_step IH1 IH2 IH3 IH4 IH5 IH6.
+Qed.
+
+Lemma top_loop_np : forall k topop cur rest, np (top_loop k topop cur rest).
+Proof.
+  induction k as [|k IH]; intros topop cur rest; [exact I|].
+  destruct (parse_np k) as (P1 & _ & _ & _ & P5 & _).
+  cbn [top_loop].
+  destruct cur as [t| |].
+  - destruct (is_ch t 123).
+    + destruct topop as [t0|]; [exact I|].
+      apply np_bind; [apply P5|]. intros [[c r] l] _. apply IH.
+    + destruct (is_ch t 64 || is_ch t 36); [|exact I].
+      destruct topop as [t0|]; [exact I|].
+      apply np_bind; [apply P1|]. intros [[c r] p] _. apply IH.
+  - destruct topop; exact I.
+  - destruct topop; exact I.
+Qed.
+
+Lemma parse_tokens_np toks : np (parse_tokens toks).
+Proof. unfold parse_tokens. destruct (scan toks) as [c r]. apply top_loop_np. Qed.
+
+Lemma parse_string_np uni s : np (parse_string uni s).
+Proof. unfold parse_string. destruct (lex uni s) as [toks|]; [apply parse_tokens_np|exact I]. Qed.
+
+Theorem parse_never_panics : forall uni s m, parse_string uni s <> Panic m.
+Proof. intros uni s m. apply np_neq. apply parse_string_np. Qed.
